@@ -33,7 +33,7 @@ def run(ctx) -> None:
     ctx.rule("R3", "reset table = {major,minor,patch,num,inc0:0, inc1:1}; applied generically in pattern order")
     ctx.rule("R4", "calendar from the given date unless pinned; future guard keeps the old calendar")
     ctx.rule("R5", "pinned calendar fields with 0 in their domain are carried over by `is None`, not truthiness")
-    ctx.rule("R6", "accepted --tag values are keys of the tag map and words of the TAG regex")
+    ctx.rule("R6", "accepted --tag values are keys of the tag map and words of the TAG regex; inapplicable part flags are rejected (cli._validate_flags evaluated)")
     ctx.rule("R7", "prerequisite: BUILD is advanced on every bump, never reset, stays a string (C17/R1-R3)")
     ctx.rule("R9", "a part not addressed by a flag is unchanged: every increment / pin flag is off unless given (click declarations)")
     shapes.cli_option_rule(ctx, "R9", ["--major", "--minor", "--patch", "--tag-num", "--pin-increments", "--pin-date", "--tag", "--date", "--set-version"])
@@ -383,6 +383,7 @@ def run(ctx) -> None:
     ctx.check("R6", ok, "_validate_release_tag returns only for None or an accepted value", "cli._validate_release_tag: accepts other tag values", ex.to_dnf(), loc=vt.loc())
     for root in ("cli.test", "cli.update"):
         shapes.check_passthrough(ctx, "R6", root, "cli._validate_release_tag", {vt.params[0]: "tag"})
+    validate_flags_eval(ctx, "R6")
 
 
 def _fold_cal_gt(ctx, eng: str) -> T.Optional[T.List[str]]:
@@ -518,3 +519,46 @@ def field_order_rule(ctx, rule: str) -> bool:
               "v2version._parse_pattern_fields: the reset order is not the left-to-right order of the parts", "; ".join(wrong[:2]) + " - a part right of a changed part is not reset",
               loc=pf.loc(), witness={"version": "25.3.2025", "pattern": "YY.MAJOR.YYYY"})
     return True
+
+
+def validate_flags_eval(ctx, rule: str) -> None:
+    """cli._validate_flags evaluated for four patterns x the eight combinations of --major/--minor/--patch: it ends the process
+    (non-zero) exactly when the pattern is new-style and a given flag names a part the pattern does not have."""
+    import itertools
+    from sa.model import CannotFold, EvalError
+    prog = ctx.prog
+    fn = prog.function("cli._validate_flags")
+    ctx.visit(fn.fq)
+
+    class Exit(Exception):
+        def __init__(self, code: T.Any):
+            self.code = code
+
+    def sys_exit(f: T.Any, node: ast.Call) -> None:
+        raise Exit(f(node.args[0]) if node.args else 0)
+    wrong: T.List[str] = []
+    n = 0
+    try:
+        for pat in ("MAJOR.MINOR.PATCH", "YYYY.BUILD", "MAJOR.MINOR[-TAG]", "{semver}", "v{year}{build}"):
+            for major, minor, patch in itertools.product((False, True), repeat=3):
+                env = dict(zip(fn.params, (pat, major, minor, patch)))
+                env.update({"__strict__": True, "__stubs__": {"sys.exit": sys_exit}})
+                try:
+                    prog.run_body(fn, env)
+                    got = None
+                except Exit as ex:
+                    got = ex.code
+                except EvalError as ex:
+                    got = f"raises: {ex}"
+                legacy = "{" in pat and "}" in pat
+                want_exit = (not legacy) and ((major and "MAJOR" not in pat) or (minor and "MINOR" not in pat) or (patch and "PATCH" not in pat))
+                n += 1
+                ok = (got not in (None, 0, False)) if want_exit else (got is None)
+                if not ok:
+                    wrong.append(f"{pat!r} with major={major}, minor={minor}, patch={patch}: {'returns' if got is None else 'exit ' + str(got)}")
+    except (CannotFold, TypeError, AttributeError, KeyError, ValueError, IndexError) as ex:
+        ctx.observe(f"cli._validate_flags not evaluated ({type(ex).__name__}: {str(ex)[:80]})")
+        return
+    ctx.check(rule, not wrong, f"_validate_flags rejects exactly the part flags the pattern cannot apply ({n} pattern x flag combinations evaluated)",
+              "cli._validate_flags: an inapplicable --major/--minor/--patch is not rejected (or an applicable one is)", "; ".join(wrong[:3]), loc=fn.loc(),
+              witness={"command": "bumpver test 2020.1001 YYYY.BUILD --major"})
